@@ -66,5 +66,10 @@ def run(ctx):
                 "`false` edge of a dominating blocked.contains test: two swaps never restructure a common level.")
     na = esort.check_acquire_guard(ctx, F)
     ctx.floor("E-PERM.acquire", "position acquisitions in the worker loop", na, 2)
+    ctx.explain("E-FREELIST.link: return_preallocated (session end) is interpreted on a model (chunk size 8): the unused rest of "
+                "the chunk is linked slot by slot in front of the thread's own free list, the head (slot index + TERMINALS) is "
+                "published, an empty list is not, the node-count delta is moved out, the allocation mark is untouched.")
+    nl = efreelist.check_return_links(ctx, F)
+    ctx.floor("E-FREELIST.link", "interpreted hand-back situations", nl, 5)
     ctx.not_decided = ("equivalence to a sequential execution over schedules, lost updates in the lock-free lists, "
                        "deadlock freedom beyond lock order (condvar protocols): behavioural, not claimed")
